@@ -140,7 +140,7 @@ def run(ctx):
     ctx.cov['rule'] = ('grid of routine / campaign x vaccination / screening / triage / treatment configurations over dt in {2, 1, 1/2, 1/4, 1/10, 1/12}, windows, coverage vectors, '
                        'eligibility rules, capacities, with births and deaths; every intervention step recorded by class-level wrappers; non-trivial = a step with recipients')
     win_terms, win_meta, camp_terms, camp_meta = [], [], [], []
-    vx_terms, vx_meta, scr_terms, scr_meta, tr_terms, tr_meta, tx_terms, tx_meta = [], [], [], [], [], [], [], []
+    vx_terms, vx_meta, scr_terms, scr_meta, tr_terms, tr_meta, tx_terms, tx_meta, dx_terms, dx_meta = [], [], [], [], [], [], [], [], [], []
     nviol = 0
     def viol(msg, w):
         nonlocal nviol
@@ -279,6 +279,32 @@ def run(ctx):
             tr_terms.append(f'({"None" if cap is None else f"Some {int(cap)}%Z"}, {nl(hist[0]["queue_before"])}, {steps}, {expt}, {nl(hist[-1]["queue_after"])})')
             tr_meta.append(dict(W, intervention=name, cap=cap, steps=len(hist)))
             ctx.count(('treat-history', label, seed, name), nontrivial=any(len(e['out']) for e in hist))
+        # Dx.administer calls: per-agent replay (the category drawn for each state the agent is in; minimum with the default)
+        for call in rec.dx_calls:
+            if isinstance(call['out'], dict):
+                res_of = {}
+                for ci, cat in enumerate(call['hierarchy']):
+                    for u in np.asarray(call['out'].get(cat, []), dtype=int): res_of.setdefault(int(u), []).append(ci)
+                multi = [u for u, v in res_of.items() if len(v) != 1]
+                missing = [int(u) for u in call['uids'] if int(u) not in res_of]
+                extra = [u for u in res_of if u not in set(map(int, call['uids']))]
+                ctx.count((label, seed, 'dx', call['ti']), nontrivial=len(call['uids']) > 0); ctx.dist('Dx.administer call')
+                if multi or missing or extra:
+                    viol(f'{label}: Dx.administer at step {call["ti"]}: the returned dictionary does not partition the tested agents ({len(multi)} in several categories, {len(missing)} missing, {len(extra)} not tested)', dict(W, ti=call['ti']))
+                    continue
+                act = np.zeros(call['n'], dtype=bool); act[call['auids']] = True
+                if len(call['draws']) != len(call['states']): continue
+                sample = [int(u) for u in call['uids'][:10]]
+                for u in sample:
+                    if len(dx_terms) >= ctx.n(300, 3000): break
+                    rows = []
+                    for (dn, st, flag), (arg, outv) in zip(call['states'], call['draws']):
+                        argl = [int(x) for x in np.atleast_1d(arg)]
+                        if u in argl: rows.append(f'(true, {int(np.atleast_1d(outv)[argl.index(u)])}%nat)')
+                        else: rows.append('(false, 0%nat)')
+                        if (u in argl) != bool(flag[u] and act[u]):
+                            viol(f'{label}: Dx.administer at step {call["ti"]}: agent {u} {"was" if u in argl else "was not"} tested for state {dn}.{st} although its flag is {bool(flag[u])}', dict(W, ti=call['ti'], uid=u))
+                    dx_terms.append(f'({call["default"]}%nat, [{"; ".join(rows)}], {res_of[u][0]}%nat)'); dx_meta.append(dict(W, ti=call['ti'], uid=u))
         # Tx.administer calls: python re-walk (assigns efficacy draws to rows) + per-agent replay
         for call in rec.tx_calls:
             cur = {dn: {k: v.copy() for k, v in call['before'][dn].items()} for dn in call['before']}
@@ -317,6 +343,7 @@ def run(ctx):
                 tx_terms.append(f'({"true" if (inu[u] and act[u]) else "false"}, [{"; ".join(f"""("{a}", "{b}")""" for a, b in rows)}], {bl(oks)}, {val(call["before"][dn])}, {val(call["after"][dn])})')
                 tx_meta.append(dict(W, ti=call['ti'], uid=u))
                 ctx.count((label, seed, 'tx', call['ti'], u), nontrivial=bool(inu[u]))
+    # Dx.administer calls are collected per run (below the loop they are replayed in Coq)
     # ---------------------------------------------------------------- Coq replays
     zeq = 'Fixpoint zl_eqb (a b : list Z) : bool := match a, b with [], [] => true | x :: a, y :: b => andb (Z.eqb x y) (zl_eqb a b) | _, _ => false end.\n' \
           'Fixpoint nl_eqb (a b : list nat) : bool := match a, b with [], [] => true | x :: a, y :: b => andb (Nat.eqb x y) (nl_eqb a b) | _, _ => false end.\n' \
@@ -348,12 +375,19 @@ def run(ctx):
 Definition ok (c : {trt_}) : bool :=
   let '(cap, q, steps, trs, qf) := c in let '(t, q') := treat_run cap q steps in andb (nll_eqb t trs) (nl_eqb q' qf).''', shard=10), tr_meta,
            'treat_num: treated agents per step / final queue differ from treat_run on the recorded accepted and eligible sets')
+    report(ctx.coq_mismatches('dx', IMPORTS, 'nat * list (bool * nat) * nat', dx_terms,
+           'Definition ok (c : nat * list (bool * nat) * nat) : bool := let \'(d, rows, r) := c in Nat.eqb (dx_agent d rows) r.', shard=300), dx_meta,
+           'Dx.administer: the category of an agent differs from dx_agent (minimum of the categories drawn over its states, default otherwise)')
+    ctx.cov['replayed_in_coq']['dx_agents'] = len(dx_terms)
     txt = 'bool * list (string * string) * list bool * valuation * valuation'
     report(ctx.coq_mismatches('tx', IMPORTS, txt, tx_terms, f'''From Coq Require Import String.
 Open Scope string_scope.
 Definition ok (c : {txt}) : bool :=
   let '(rc, rows, oks, st, ex) := c in forallb (fun k => Bool.eqb (getv (tx_agent rc rows oks st) k) (getv ex k)) (map fst st).''', shard=150), tx_meta,
            'Tx.administer: per-agent flags after the call differ from tx_agent on the recorded efficacy draws')
+
+
+    return None
 
 
 def replay(ctx, rp):
